@@ -153,4 +153,104 @@ theorem transition_bstep (os : List Out) (cfg : Cfg) (p : Proc) (now mood : Int)
           omega
         · exact hfin _ rfl
 
+theorem emit_p (o : Out) (s : S) : (emit o s).p = s.p := by
+  obtain ⟨q, os, err⟩ := s; cases err <;> simp [emit, guard]
+
+theorem finish_bstep (cfg : Cfg) (p : Proc) (now es : Int) (busy : Bool) (hnb : p.state ≠ .backoff) :
+    BStep p (finish cfg now es busy { p := p }).p := by
+  obtain ⟨hs, _, _⟩ := rollback_fields cfg now p
+  have hb := rollback_backoff cfg now p
+  have key : ∀ (e : Env) (q : Proc), q.state = p.state → q.backoff = p.backoff →
+      BStep p (finishCore cfg e busy { p := q }).p := by
+    intro e q h1 h2
+    rcases finishCore_bstep cfg e busy q [] (by rw [h1]; exact hnb) with h | ⟨h3, h4⟩ | ⟨h3, h4⟩
+    · exact Or.inl h
+    · exact Or.inr (Or.inl ⟨by rw [h3, h2], fun hr => by rw [← h1]; exact h4 hr⟩)
+    · exact Or.inr (Or.inr ⟨by rw [h3, h2], h4⟩)
+  simp only [finish, guard, setP, finish_a2, Option.isSome_none, Bool.false_eq_true, if_false]
+  exact key _ _ (by simp [hs]) (by simp [hb])
+
+theorem stop_bstep (cfg : Cfg) (p : Proc) (now : Int) (kr : KillRes) : BStep p (stop cfg now kr { p := p }).p := by
+  have key : ∀ (q : Proc) (sig : Int), q.state = p.state → q.backoff = p.backoff →
+      BStep p (kill cfg now sig kr { p := q }).p := by
+    intro q sig h1 h2
+    rcases kill_bstep cfg now sig kr q [] with h | ⟨h3, h4⟩ | ⟨h3, h4⟩
+    · exact Or.inl h
+    · exact Or.inr (Or.inl ⟨by rw [h3, h2], fun hr => by rw [← h1]; exact h4 hr⟩)
+    · exact Or.inr (Or.inr ⟨by rw [h3, h2], h4⟩)
+  simp only [stop, guard, setP, Option.isSome_none, Bool.false_eq_true, if_false]
+  exact key _ _ rfl rfl
+
+theorem groupStop_bstep (cfg : Cfg) (p : Proc) (now : Int) (kr : KillRes) : BStep p (groupStop cfg now kr { p := p }).p := by
+  simp only [groupStop, guard, Option.isSome_none, Bool.false_eq_true, if_false]
+  repeat' split
+  · exact stop_bstep ..
+  · exact stop_bstep ..
+  · exact giveUp_bstep ..
+  · exact bstep_refl p
+
+theorem rpcStop_bstep (cfg : Cfg) (p : Proc) (now mood : Int) (kr : KillRes) : BStep p (rpcStop cfg now mood kr { p := p }).p := by
+  simp only [rpcStop, guard, Option.isSome_none, Bool.false_eq_true, if_false, answer]
+  repeat' split
+  all_goals (rw [emit_p])
+  all_goals first | exact bstep_refl p | exact stop_bstep ..
+
+theorem rpcSignal_bstep (cfg : Cfg) (p : Proc) (now mood sig : Int) (kr : KillRes) :
+    BStep p (rpcSignal cfg now mood sig kr { p := p }).p := by
+  simp only [rpcSignal, guard, Option.isSome_none, Bool.false_eq_true, if_false, answer]
+  repeat' split
+  all_goals (rw [emit_p])
+  all_goals first | exact bstep_refl p | exact signal_bstep ..
+
+theorem stopReport_bstep (cfg : Cfg) (p : Proc) (now : Int) : BStep p (stopReport cfg now { p := p }).p := by
+  have hs := rollback_fields cfg now p
+  have hb := rollback_backoff cfg now p
+  simp only [stopReport, guard, setP, Option.isSome_none, Bool.false_eq_true, if_false]
+  split
+  · dsimp only
+    split <;> exact Or.inr (Or.inl ⟨by simpa using hb, fun hr => by simpa [hs.1] using hr⟩)
+  · exact bstep_refl p
+
+/-- what `spawn()` leaves for an eligible process: STARTING with the counter untouched, or BACKOFF with one more failure -/
+theorem spawn_eligible_b (cfg : Cfg) (p : Proc) (now : Int) (res : SpawnRes) (hw : wfSpawn res)
+    (hst : p.state = .exited ∨ p.state = .stopped ∨ p.state = .fatal) (hp : p.pid = 0) :
+    ((spawn cfg now res { p := p }).p.spawnerr = false ∧ (spawn cfg now res { p := p }).p.backoff = p.backoff ∧
+       (spawn cfg now res { p := p }).p.state = .starting ∧ (spawn cfg now res { p := p }).err = none) ∨
+    ((spawn cfg now res { p := p }).p.spawnerr = true ∧ (spawn cfg now res { p := p }).p.backoff = p.backoff + 1 ∧
+       (spawn cfg now res { p := p }).p.state = .backoff) := by
+  cases res with
+  | ok pid =>
+    have hpid : pid ≠ 0 := hw
+    rcases hst with hs | hs | hs <;> simp [procdefs, hs, hp, hpid]
+  | badCmd => rcases hst with hs | hs | hs <;> simp [procdefs, hs, hp]
+  | pipeErr => rcases hst with hs | hs | hs <;> simp [procdefs, hs, hp]
+  | forkErr => rcases hst with hs | hs | hs <;> simp [procdefs, hs, hp]
+
+theorem rpcStart_bstep (cfg : Cfg) (p : Proc) (now mood : Int) (res : SpawnRes) (hw : wfSpawn res) (hi : Inv p)
+    (hnn : 0 ≤ p.backoff) : BStep p (rpcStart cfg now mood res { p := p }).p := by
+  simp only [rpcStart, guard, Option.isSome_none, Bool.false_eq_true, if_false, answer]
+  split
+  · rw [emit_p]; exact bstep_refl p
+  · split
+    · rw [emit_p]; exact bstep_refl p
+    · rename_i href
+      have hst : p.state = .exited ∨ p.state = .stopped ∨ p.state = .fatal := by
+        simp only [startRefusal] at href
+        cases hs : p.state <;> simp_all [runningStates] <;> (split at href <;> simp_all)
+      have hp : p.pid = 0 := by apply hi.dead; rcases hst with hs | hs | hs <;> simp [hs]
+      rcases spawn_eligible_b cfg p now res hw hst hp with ⟨h1, h2, h3, h4⟩ | ⟨h1, h2, h3⟩
+      · simp only [h1, Bool.false_eq_true, if_false]
+        rw [emit_p]
+        generalize hr : spawn cfg now res { p := p } = r at *
+        obtain ⟨q, os, err⟩ := r
+        simp only at h1 h2 h3 h4; subst h4
+        obtain ⟨hb, _⟩ := transition_bstep os cfg q now mood res .ok (by rw [h2]; exact hnn)
+        rcases hb with hb | ⟨hb1, hb2⟩ | ⟨hb1, hb2⟩
+        · exact Or.inl hb
+        · exact Or.inr (Or.inl ⟨by rw [hb1, h2], fun hq => by have := hb2 hq; rw [h3] at this; simp at this⟩)
+        · exact Or.inr (Or.inr ⟨by rw [hb1, h2], hb2⟩)
+      · simp only [h1, if_true]
+        rw [emit_p]
+        exact Or.inr (Or.inr ⟨h2, h3⟩)
+
 end Sv.Proc
